@@ -6,7 +6,7 @@ from ..model import qast
 CELLS = ['', 'a', 'b', 'ab', 'ba', '0', '1', '2', '10', '-1', '2.5', 'x|y', 'a b', 'É', "it's", 'q"t', ',', 'NR', 'None', 'a1', ' ']
 SMALL_CELLS = ['a', 'b', 'ab', '1', '2', '10', '']
 NAME_POOL = ['name', 'age', 'x1', 'Col_3', 'home_town', 'x y', 'Dist (km)', 'q"uote', "it's", 'Total%', 'k#1', 'été', 'b_c', 'zz', 'v', 'A', 'a_', 'ID', 'x-y', '[k]', 'back\\slash', 'tab\there']
-STR_LITS = ['', 'x', 'ab', ' ', 'a,b', 'a)b', '(', 'x, y', "it's", 'q"t', '[1]', 'É', '%', 'a1', '#', '=', ';']
+STR_LITS = ['', 'x', 'ab', ' ', 'a,b', 'a)b', '(', 'x, y', "it's", 'q"t', '[1]', 'É', '%', 'a1', '#', '=', ';', '$$', 'a$&b', 'US$', '$1', "$'", 'x\\\\']
 LIKE_PATS = ['%', 'a%', '%b', '_', 'a_', '%a%', 'ab', '_%', '1%', '%.%', 'x|y', '']
 
 
@@ -278,6 +278,11 @@ class G(object):
             for j in cols[:rng.choice([1, 1, 2])]:
                 sp = self.spelling('a', j)
                 q['except'].append(['field', 'a', j, 'dq' if sp == 'sq' else sp])
+            if rng.random() < 0.25:
+                # the same column named twice (possibly in two spellings), followed or preceded by the others
+                j = q['except'][0][2]
+                sp = self.spelling('a', j)
+                q['except'].insert(rng.randrange(0, len(q['except']) + 1), ['field', 'a', j, 'dq' if sp == 'sq' else sp])
         else:
             q['items'] = self.gen_items(allow_unnest='unnest' in features or rng.random() < 0.15, allow_list=not hashable_only, allow_star='nostar' not in features)
             if 'unnest' in features and not any(it['kind'] == 'unnest' for it in q['items']):
